@@ -11,7 +11,11 @@ def collect_claims():
     import importlib
     from .main import discover
     claims = {}
+    with open(os.path.join(VERIF, "harness", "CLAIMED")) as f:
+        allowed = set(l.split()[0] for l in f if l.strip() and not l.startswith("#"))
     for pid, mod in discover().items():
+        if pid not in allowed:
+            continue
         mm = importlib.import_module(mod)
         c = mm.PROPS[pid]
         claims[pid] = (c["level"], c["technique"], c["text"], c["note"], c["ref"])
